@@ -1566,13 +1566,17 @@ cdef class NNPS(NNPSBase):
             print(msg)
         self._last_domain_size = domain_size
 
-        # If all of the dimensions have very small extent give it a unit size.
+        # If all of the dimensions have very small extent give it the size
+        # of one cell.  (A fixed unit size needs (1/cell_size)**3 cells,
+        # which the algorithms with one table entry per cell cannot
+        # allocate when h is small.)
         cdef double _eps = 1e-12
+        cdef double _pad = 0.5*self.cell_size
         if (fabs(xmax - xmin) < _eps) and (fabs(ymax - ymin) < _eps) \
             and (fabs(zmax - zmin) < _eps):
-            xmin -= 0.5; xmax += 0.5
-            ymin -= 0.5; ymax += 0.5
-            zmin -= 0.5; zmax += 0.5
+            xmin -= _pad; xmax += _pad
+            ymin -= _pad; ymax += _pad
+            zmin -= _pad; zmax += _pad
 
         # store the minimum and maximum of physical coordinates
         self.xmin.set_data(np.asarray([xmin, ymin, zmin]))
